@@ -85,12 +85,12 @@ def check(ctx):
     # ---- R-C08.2 -------------------------------------------------------------------
     sub = Ctx("C07", ctx.tier)
     c07.check(sub)
-    for rid in ("R-C07.1", "R-C07.2", "R-C07.3", "R-C07.4", "R-C07.6", "R-C07.7"):
+    for rid in ("R-C07.1", "R-C07.2", "R-C07.3", "R-C07.4", "R-C07.5", "R-C07.6", "R-C07.7"):
         r = sub.rules.get(rid, {"instances": 0})
         for i in range(r["instances"] - r.get("violations", 0)):
             ctx.oblige("R-C08.2", f"{rid}#{i}", True, nontrivial=False)
     for f in sub.findings:
-        if f.rule in ("R-C07.1", "R-C07.2", "R-C07.3", "R-C07.4", "R-C07.6", "R-C07.7"):
+        if f.rule in ("R-C07.1", "R-C07.2", "R-C07.3", "R-C07.4", "R-C07.5", "R-C07.6", "R-C07.7"):
             ctx.oblige("R-C08.2", f.key, False)
             ctx.violation("R-C08.2", f.key, f.message, file=f.file, function=f.function, line=f.line, construct=f.construct)
 
